@@ -33,7 +33,7 @@ def set_path(p):
         for f in files:
             if f == 'Cargo.toml':
                 t = open(os.path.join(root, f)).read()
-                t = re.sub(r'/tmp/seed2?_%s/nutype|/tmp/sv_(r2)?%s%s/nutype|/repo/nutype' % (ID, ID, X), p + '/nutype', t)
+                t = re.sub(r'/tmp/seed[23]?_%s/nutype|/tmp/sv_(r[23])?%s%s/nutype|/repo/nutype' % (ID, ID, X), p + '/nutype', t)
                 open(os.path.join(root, f), 'w').write(t)
     lock = os.path.join(demo, 'Cargo.lock')
     if os.path.exists(lock): os.remove(lock)
